@@ -220,17 +220,22 @@ def corpus_net(rng, name):
     ones, a deterministic witness for the open one (known_lrelu16_reshape)"""
     import netgen
 
-    b = make_builder(rng, name, "int16" if name in ("known_fc_int16", "known_lrelu16_relu6", "known_lrelu16_reshape") else "int8")
+    b = make_builder(rng, name, "int16" if name in ("known_fc_int16", "known_lrelu16_relu6", "known_lrelu16_reshape", "known_lrelu16_rounding")
+                     else ("uint8" if name == "known_dilation3_uint8" else "int8"))
     if name == "known_fc_int16":
         x = b.input([1, 2, 1, 16], scale=0.0011566292960196733, zp=0)
     elif name == "known_lrelu16_relu6":
         x = b.input([1, 4, 6, 4], scale=0.00029, zp=0)
     elif name == "known_lrelu16_reshape":
         x = b.input([1, 9, 4, 8], scale=0.025, zp=0)
+    elif name == "known_lrelu16_rounding":
+        x = b.input([1, 2, 4, 4], scale=0.01, zp=0)
     else:
       x = b.input({"known_pad_conv_reshape": [1, 4, 9, 4], "known_lut_reshape": [1, 3, 9, 8],
                  "known_cascade_stale_row": [1, 10, 8, 8], "known_slice_strided_conv": [1, 6, 6, 4],
-                 "known_pad_concat": [1, 1, 3, 16], "known_pad_strided_dw": [1, 10, 9, 4]}.get(name, [1, 6, 6, 8]), scale=0.05, zp=3)
+                 "known_pad_concat": [1, 1, 3, 16], "known_pad_strided_dw": [1, 10, 9, 4], "known_sconv_unit_output": [1, 2, 18, 4],
+                 "known_sconv_filter_shift": [1, 4, 24, 3], "known_dilation3_uint8": [1, 12, 12, 4]}.get(name, [1, 6, 6, 8]), scale=0.05,
+                zp=120 if name == "known_dilation3_uint8" else 3)
     if name == "known_slice_relu":
         y = b.pool(x, "MAX_POOL_2D", (3, 3), (1, 1), "SAME")
         s = b.strided_slice(y, [0, 1, 2, 0], [1, 5, 6, 8])
@@ -292,6 +297,35 @@ def corpus_net(rng, name):
         z = b.fc(b.reshape(y, [1, 9 * 4 * 8]), 4)
     elif name == "known_reshape_relu":
         z = b.unary("RELU6", b.reshape(x, [1, 4, 9, 8]))
+    elif name in ("known_mulmax_gt1", "known_mulmax_q0", "known_mulmax_qm1"):
+        # Maximum(x, Mul(x, c)), c a constant scalar: real value 2 / -0.5 (quantised 0, zero point 10) / -0.502 (quantised -1)
+        q, zpc, sc = {"known_mulmax_gt1": (127, -128, 2 / 255), "known_mulmax_q0": (0, 10, 0.05), "known_mulmax_qm1": (-1, 127, 1 / 255)}[name]
+        c = b.const([], "int8", [q], [sc], [zpc])
+        m = b.binary("MUL", x, c)
+        b.t(m).shape = list(b.t(x).shape)
+        _same_quant(b, m, x)
+        z = b.binary("MAXIMUM", x, m)
+    elif name == "known_avgpool_wide_stride":
+        # width stride 8: lowered to a convolution (width folded by fixup_strided_conv); depth 2
+        z = b.pool(x, "AVERAGE_POOL_2D", (2, 4), (2, 8), "VALID")
+    elif name == "known_dilation3_uint8":
+        # dilation 3 is done in software (sparse kernel); uint8 weights have a non-zero zero point
+        z = b.conv(x, 4, (3, 3), (1, 1), (3, 3), "SAME", act=0)
+        b.t(b.net.ops[-1].inputs[1]).zps = [138]
+    elif name == "known_sconv_unit_output":
+        # first operator, stride (2, 4): the width is folded by 2, then the OFM height 1 makes the padding explicit
+        z = b.conv(x, 2, (1, 6), (2, 4), (1, 1), "SAME", act=0)
+    elif name == "known_sconv_filter_shift":
+        # stride (1, 9) SAME: folded by 3, one zero column in front of the 3-wide filter although no padding is needed
+        z = b.conv(x, 2, (1, 3), (1, 9), (1, 1), "SAME", act=0)
+    elif name == "known_pad_hw_and_channel":
+        # PAD that pads height/width and channels at once
+        z = b.pool(b.pad(x, [[0, 0], [1, 1], [1, 1], [0, 2]]), "MAX_POOL_2D", (1, 1), (1, 1), "VALID")
+    elif name == "known_lrelu16_rounding":
+        # identity multiplier exactly 1/2, alpha 0.998: for small negative inputs the two roundings of the identity branch end one
+        # above the alpha branch (Props/C01Rewrites.lrelu_mulmax_id_witness)
+        z = b.fm([1, 2, 4, 4], "int16", scale=0.02, zp=0)
+        b.net.ops.append(netgen.Op("LEAKY_RELU", [x], [z], ("LeakyReluOptions", dict(Alpha=0.998))))
     else:  # known_quantize_relu
         y = b.quantize(x)
         b.t(y).scales, b.t(y).zps = [0.03], [20]
@@ -337,6 +371,15 @@ def _worker(job):
         data = netgen.serialize(net)
         out.update(desc=net.describe(), opts=opts, src_ops=[o.kind for o in net.ops], dtype=net.tensors[net.inputs[0]].dtype,
                    src_inputs=list(net.inputs),
+                   src_quant=[(list(t.scales or []), list(t.zps or [])) for t in net.tensors],
+                   src_shapes=[list(t.shape) for t in net.tensors],
+                   src_dilations=[max(int((o.opts[1] if o.opts else {}).get("DilationHFactor", 1)), int((o.opts[1] if o.opts else {}).get("DilationWFactor", 1)))
+                                  for o in net.ops],
+                   src_strides=[(int((o.opts[1] if o.opts else {}).get("StrideH", 1)), int((o.opts[1] if o.opts else {}).get("StrideW", 1))) for o in net.ops],
+                   src_scalars={i: int(np.asarray(t.data).reshape(-1)[0]) for i, t in enumerate(net.tensors)
+                                if t.data is not None and np.asarray(t.data).size == 1},
+                   src_pads={i: np.asarray(t.data).reshape(-1, 2).tolist() for i, t in enumerate(net.tensors)
+                             if t.data is not None and t.dtype == "int32" and np.asarray(t.data).size in (6, 8)},
                    src_graph=[(o.kind, list(o.inputs), list(o.outputs), int((o.opts[1] if o.opts else {}).get("FusedActivationFunction", 0)),
                                int((o.opts[1] if o.opts else {}).get("Padding", -1)),
                                max(int((o.opts[1] if o.opts else {}).get("StrideW", 1)), int((o.opts[1] if o.opts else {}).get("StrideH", 1))))
@@ -355,6 +398,8 @@ def _worker(job):
             out["npu_stream_ops"] = nops
             try:
                 sets = c01_lib.make_inputs(rng, data, k_inputs)
+                if profile == "known_lrelu16_rounding":       # small negative inputs are where the two roundings differ
+                    sets[0] = [np.resize(np.arange(-39, 0), 32).astype("<i2").tobytes().hex()]
                 line, sg, og = c01_lib.build_request(data, res, sets, capture)
                 out["line"] = line
                 out["out_kinds"] = og.kinds
@@ -392,9 +437,62 @@ MEMORY_ONLY = ("RESHAPE", "SQUEEZE", "EXPAND_DIMS")
 def classify_failure(o, ans):
     """stable key of the open known finding (see known_findings.txt), or None. Only the structure of the source network
     is consulted; the verdict itself is Lean's."""
+    g = o.get("src_graph") or []
+    if "weights_do_not_fit_the_IFM_depth" in ans:
+        # AVERAGE_POOL_2D with a width stride >= 4 lowered to a convolution with one input channel
+        shapes, strides = o.get("src_shapes") or [], o.get("src_strides") or []
+        for n_op, (kind, ins, outs, faf, pad, stride) in enumerate(g):
+            if kind == "AVERAGE_POOL_2D" and n_op < len(strides) and strides[n_op][1] >= 4 and ins[0] < len(shapes) and shapes[ins[0]][-1] > 1:
+                return "avgpool-wide-stride-as-conv:weights-have-one-input-channel"
+    if ans.endswith("verdict=fail"):
+        # Maximum(x, Mul(x, c)) with a constant scalar c taken for LeakyRelu / Relu / Abs on its quantised value
+        quant, scalars = o.get("src_quant") or [], o.get("src_scalars") or {}
+        prod = {outs[0]: (kind, ins) for kind, ins, outs, faf, pad, stride in g}
+        for kind, ins, outs, faf, pad, stride in g:
+            if kind != "MAXIMUM":
+                continue
+            for a, m in ((ins[0], ins[1]), (ins[1], ins[0])):
+                pk, pins = prod.get(m, (None, None))
+                if pk == "MUL" and a in pins:
+                    c = [t for t in pins if t != a]
+                    if len(c) == 1 and c[0] in scalars and quant[c[0]][0]:
+                        q, zpc, sc = scalars[c[0]], quant[c[0]][1][0], float(np.float32(quant[c[0]][0][0]))
+                        real = (q - zpc) * sc
+                        if q == 0 and zpc != 0:
+                            return "mul-max-to-relu:quantised-zero-with-nonzero-zero-point"
+                        if q == -1 and real != -1:
+                            return "mul-max-to-abs:quantised-minus-one-not-real-minus-one"
+                        if q >= 0 and real > 1:
+                            return "mul-max-to-lrelu:real-constant-above-one"
+        # dilation above 2 (sparse kernel built in software) with asymmetric (uint8) weights
+        dils = o.get("src_dilations") or []
+        for n_op, (kind, ins, outs, faf, pad, stride) in enumerate(g):
+            if kind in ("CONV_2D", "DEPTHWISE_CONV_2D") and n_op < len(dils) and dils[n_op] > 2 and len(ins) > 1 and ins[1] < len(quant) \
+                    and any(z != 0 for z in quant[ins[1]][1]):
+                return "software-dilation:inserted-taps-zero-instead-of-weight-zero-point"
+        # SAME-padded CONV_2D whose width gets folded into the channels (first operator with a width stride > 1, or any with a width
+        # stride > 3): explicit padding from the unfolded width when the OFM height/width is 1, misaligned filter zero columns otherwise
+        shapes, strides = o.get("src_shapes") or [], o.get("src_strides") or []
+        for n_op, (kind, ins, outs, faf, pad, stride) in enumerate(g):
+            if kind == "CONV_2D" and pad == 0 and n_op < len(strides) and strides[n_op][1] > 1 and (n_op == 0 or strides[n_op][1] > 3):
+                osh = shapes[outs[0]] if outs[0] < len(shapes) else []
+                if len(osh) == 4 and (osh[1] == 1 or osh[2] == 1):
+                    return "strided-conv-fold:unit-output-padding-from-unfolded-width"
+                return "strided-conv-fold:filter-zero-padding-misaligned"
+        # PAD with channel (or batch) padding and spatial padding at once: convert_pad_to_concat keeps only the channel part
+        pads = o.get("src_pads") or {}
+        for kind, ins, outs, faf, pad, stride in g:
+            if kind == "PAD" and len(ins) > 1 and ins[1] in pads:
+                pv = pads[ins[1]]
+                if (sum(pv[-1]) != 0 or (len(pv) == 4 and sum(pv[0]) != 0)) and sum(pv[-3]) + sum(pv[-2]) != 0:
+                    return "pad-spatial-and-channel-padding:spatial-part-dropped"
+        # int16 LEAKY_RELU with differing scales lowered to Maximum(Mul, Mul): each branch rounds twice
+        if o.get("dtype") == "int16" and re.search(r"maxdiff=1 ", ans) and not re.search(r"maxdiff=([2-9]|1\d)", ans):
+            for kind, ins, outs, faf, pad, stride in g:
+                if kind == "LEAKY_RELU" and quant and quant[ins[0]][0] != quant[outs[0]][0]:
+                    return "int16-lrelu-mul-max-rounds-each-branch"
     if not (ans.endswith("verdict=fail") or "read_outside_region" in ans) or o.get("dtype") != "int16":
         return None
-    g = o.get("src_graph") or []
     consumers = {}
     for kind, ins, outs, faf, pad, stride in g:
         for t in ins:
@@ -407,6 +505,17 @@ def classify_failure(o, ans):
 
 def replay(ck, path):
     rp = json.load(open(path))["replay"]
+    if "stream" in rp:
+        # a rewrite-stream replay: the model's answer to the stored request and Lean's semantic verdict on the stored real output
+        if rp.get("request"):
+            print("model:", common.run_model([rp["request"]])[0][:500])
+        sem = rp.get("semantic_request")
+        if sem and not sem.endswith("…"):
+            ans = common.run_model([sem])[0]
+            print("semantic verdict on the recorded output of the real rewrite:", ans[:500])
+            sys.exit(0 if ans == "ok" else 1)
+        print("recorded verdict:", rp.get("lean_verdict"))
+        sys.exit(1)
     ans = common.run_model([rp["request"]])[0]
     print("replayed verdict:", ans[:1000])
     sys.exit(0 if ans.endswith("verdict=pass") else 1)
@@ -414,21 +523,42 @@ def replay(ck, path):
 
 def main():
     ck = Check("C01", "translation_validation")
-    ck.lean_stage(["VelaVerif.Props.C01"])
+    ck.lean_stage(["VelaVerif.Props.C01", "VelaVerif.Props.C01Rewrites"])
     if ck.replay_arg:
         replay(ck, ck.replay_arg)
     import pipeline
 
     pipeline.load_vela()
+    # rewrite streams: the models of Model/Rewrites.lean against the real graph-optimiser functions (in-process)
+    import c01_rewrites
+    import time
+
+    t0 = time.time()
+    rw = c01_rewrites.run(ck)
+    ck.count("seconds_rewrite_streams", round(time.time() - t0))
     n = 40000 if ck.thorough else 6000
     k_inputs = 5 if ck.thorough else 4
     jobs = [(0, 0, "known_" + nm, k_inputs) for nm in ("slice_relu", "fused_act_relu", "pad_conv_reshape", "quantize_relu", "reshape_relu",
                                                               "slice_window", "lut_reshape", "cascade_stale_row", "pad_avgpool_act", "slice_of_slice", "slice_strided_conv", "fc_int16",
-                                                              "slice_strided_pool", "pad_concat", "pad_strided_dw", "lrelu16_relu6", "lrelu16_reshape")]
+                                                              "slice_strided_pool", "pad_concat", "pad_strided_dw", "lrelu16_relu6", "lrelu16_reshape",
+                                                              "mulmax_gt1", "mulmax_q0", "mulmax_qm1", "lrelu16_rounding", "pad_hw_and_channel",
+                                                              "sconv_unit_output", "sconv_filter_shift", "dilation3_uint8",
+                                                              "avgpool_wide_stride")]
     jobs += [(ck.seed, i, PROFILES[i % len(PROFILES)], k_inputs) for i in range(n)]
     ctx = multiprocessing.get_context("fork")
+    t0 = time.time()
+    # The quick tier has a wall-clock budget: on a heavily loaded machine the compile stage is cut short after `budget` seconds
+    # (never below 1500 generated networks); every network is still a pure function of (seed, index), so a reported network
+    # replays regardless of how many were run. The number actually run is in the evidence (`evaluations`).
+    budget = None if ck.thorough else 100
+    outs = []
     with ProcessPoolExecutor(min(16, os.cpu_count() or 4), mp_context=ctx) as ex:
-        outs = list(ex.map(_worker, jobs, chunksize=1))
+        for k in range(0, len(jobs), 500):
+            if budget is not None and k >= 1500 and time.time() - t0 > budget:
+                ck.count("networks_not_run_for_lack_of_time", len(jobs) - k)
+                break
+            outs += list(ex.map(_worker, jobs[k:k + 500], chunksize=1))
+    ck.count("seconds_compile_and_build_requests", round(time.time() - t0))
     lines, owners = [], []
     for o in outs:
         if "harness_exception" in o:
@@ -444,7 +574,9 @@ def main():
         if "line" in o:
             lines.append(o["line"])
             owners.append(o)
+    t0 = time.time()
     answers = run_lean(lines)
+    ck.count("seconds_lean_execution", round(time.time() - t0))
     judged, nontrivial = 0, set()
     for o, ans, line in zip(owners, answers, lines):
         rp = {"profile": o["profile"], "seed": o["seed"], "index": o["idx"], "opts": o["opts"], "network": o["desc"],
@@ -484,12 +616,16 @@ def main():
         ck.sample({"network": o["desc"], "opts": o["opts"], "features": o.get("features"), "verdict": ans[:300]})
     ck.finish({
         "programs": judged,
-        "evaluations": len(outs),
-        "distinct_nontrivial": len(nontrivial),
+        "evaluations": len(outs) + rw.evaluations,
+        "distinct_nontrivial": len(nontrivial) + len(rw.nontrivial),
+        "rewrite_stream_evaluations": rw.evaluations,
+        "rewrite_stream_distinct": len(rw.nontrivial),
         "inputs_per_network": k_inputs,
         "rule": "evaluation = one (generated network, sampled configuration) compiled by the real compiler; judged = both "
                 "models executed by Lean on every input set; non-trivial = at least one NPU operation was executed by the "
-                "stream executor and at least one output has a judged tolerance class; distinct by (profile, index, options)",
+                "stream executor and at least one output has a judged tolerance class; distinct by (profile, index, options). Rewrite "
+                "streams: evaluation = one operator (group) built from the repo's classes and rewritten by the real function, compared with "
+                "the Lean model and judged by the Lean per-element semantics; distinct by the operator's parameters",
         "exhaustive": False,
         "trusted_base_extra": [
             "Spec/NpuSem.lean: hardware arithmetic transcribed from Vela's own register usage and the public register "
